@@ -129,11 +129,11 @@ static void run_message(const int * units, int k, int pred) {
         (void) start;
         if (ukind[kd].res || ukind[kd].leftover) errs++;
     }
-    if (responded) { memcpy(exp + el, "\r\n", 2); el += 2; n_responding++; } else n_silent++;
+    if (responded) { memcpy(exp + el, SCPI_LINE_ENDING, strlen(SCPI_LINE_ENDING)); el += strlen(SCPI_LINE_ENDING); n_responding++; } else n_silent++;
     if (OUTN != el || memcmp(OUT, exp, el)) {
         const char * why = "c06/output";
         if (!responded && OUTN) why = "c06/output-without-response";
-        else if (responded && OUTN >= 2 && el >= 2 && memcmp(OUT + OUTN - 2, "\r\n", 2)) why = "c06/terminator-missing";
+        else if (responded && OUTN >= strlen(SCPI_LINE_ENDING) && el >= 2 && memcmp(OUT + OUTN - strlen(SCPI_LINE_ENDING), SCPI_LINE_ENDING, strlen(SCPI_LINE_ENDING))) why = "c06/terminator-missing";
         else if (responded && OUTN == 0) why = "c06/response-missing";
         else {
             size_t i, sc_o = 0, sc_e = 0;
@@ -184,7 +184,7 @@ int main(int argc, char ** argv) {
             if (form) { memcpy(exp, "7;", 2); el = 2; }
             for (i = 0; i < counts[ci]; i++) { if (i) exp[el++] = ','; exp[el++] = (char) ('0' + i % 7); }
             if (form) { memcpy(exp + el, ";#HFF", 5); el += 5; }
-            memcpy(exp + el, "\r\n", 2); el += 2;
+            memcpy(exp + el, SCPI_LINE_ENDING, strlen(SCPI_LINE_ENDING)); el += strlen(SCPI_LINE_ENDING);
             if (OUTN != el || memcmp(OUT, exp, el)) {
                 size_t k = 0; while (k < OUTN && k < el && OUT[k] == exp[k]) k++;
                 mc_viol("c06/item-separator/many-items", "message [%s]: output differs from the model at offset %d: got [%s], expected [%s]", mc_e(msg, (size_t) ml), (int) k, mc_e(OUT + (k > 6 ? k - 6 : 0), 14), mc_e(exp + (k > 6 ? k - 6 : 0), 14));
